@@ -7,6 +7,7 @@
 #include "verif.hpp"
 #include "geo_common.hpp"
 #include "krig_common.hpp"
+#include "Matrix/MatrixRectangular.hpp"
 
 using namespace vf;
 using namespace vfkrig;
@@ -438,6 +439,135 @@ static void runXvalid(const XCase& x, Ctx& ctx)
   ctx.nontrivial(nChecked > 0 && maxNb >= 2);
 }
 
+// ------------------------------------------------------------------ linear combinations --
+// kriging(..., matLC): the outputs are the kriging of the combinations sum_j M(i,j) Z_j.  Kriging being linear,
+// the oracle combines the right-hand sides / solutions of the ordinary system: b' = B M', l' = sol M',
+// sigma00' = M sigma00 M', estimate' = M estimate.
+struct MCase
+{
+  KCase k;
+  int nlc = 1;
+  std::vector<double> lc; // nlc * nvar
+  template<class A> void io(A& a) { a("k", k)("nlc", nlc)("lc", lc); }
+};
+static MCase genMatLC()
+{
+  MCase m;
+  GenOpt o;
+  o.nvarMin = 2;
+  o.heteroPct = 50;
+  o.nMax = 30;
+  m.k = genCase(o);
+  m.nlc = G::i(1, m.k.nvar);
+  for (int i = 0; i < m.nlc * m.k.nvar; i++) m.lc.push_back(G::pct(25) ? 0. : G::r(-2, 2, 4));
+  m.lc[0] = (m.lc[0] == 0.) ? 1. : m.lc[0];
+  return m;
+}
+static void runMatLC(const MCase& mc, Ctx& ctx)
+{
+  const KCase& c = mc.k;
+  labelCase(c, ctx);
+  ctx.label("matLC:" + std::to_string(mc.nlc));
+  ctx.sig = Hash().add(signature(c)).add(mc.nlc).h;
+  World w;
+  if (!buildWorld(c, w, ctx)) return;
+  int nt = c.ntarg(), nv = c.nvar, nl = mc.nlc;
+  Ctx dummy;
+  std::unique_ptr<Model> om = buildModel(c, dummy);
+  if (!om) { ctx.fail("harness:model", "second model construction failed"); return; }
+  om->setField(Oracle::fieldOf(c, w.dbout.get()));
+  Oracle orc(c, om.get());
+  double eta = etaIn(c);
+  MatrixRectangular M(nl, nv);
+  for (int i = 0; i < nl; i++)
+    for (int j = 0; j < nv; j++) M.setValue(i, j, mc.lc[(size_t)(i * nv + j)]);
+  bool wantVarz = c.flagVarz != 0;
+  ctx.at("kriging-matLC:" + c.variant());
+  VectorInt nd;
+  for (int v : c.ndisc) nd.push_back(v);
+  int err = kriging(w.dbin.get(), w.dbout.get(), w.model.get(), w.neigh.get(), c.block ? EKrigOpt::BLOCK : EKrigOpt::POINT, true, true,
+                    wantVarz, nd, VectorInt(), &M);
+  if (err != 0) { ctx.fail(c.key("matlc-kriging-error"), "kriging(matLC) returns an error on a valid configuration"); return; }
+  std::vector<VectorDouble> E, Sd, Vz;
+  for (int i = 0; i < nl; i++)
+  {
+    std::string base = (nl == 1) ? std::string("Kriging.LC") : "Kriging.LC-" + std::to_string(i + 1);
+    if (w.dbout->getUID(base + ".estim") < 0 || w.dbout->getUID(base + ".stdev") < 0 || (wantVarz && w.dbout->getUID(base + ".varz") < 0))
+    {
+      ctx.fail(c.key("matlc-columns"), "kriging(matLC) did not create the columns " + base + ".estim/.stdev/.varz");
+      return;
+    }
+    E.push_back(w.dbout->getColumn(base + ".estim", false));
+    Sd.push_back(w.dbout->getColumn(base + ".stdev", false));
+    if (wantVarz) Vz.push_back(w.dbout->getColumn(base + ".varz", false));
+  }
+  int nChecked = 0, nIll = 0, maxNb = 0;
+  for (int k = 0; k < nt; k++)
+  {
+    TargetGeom g = orc.geom(k, w, true);
+    NbRef nr = refNeigh(c, g.x0.data());
+    if (!c.ftdef(k) || nr.ambiguous || nr.empty()) continue;
+    Sys S;
+    orc.solve(k, g, nr.nb, S);
+    maxNb = std::max(maxNb, (int)nr.nb.size());
+    if (!S.solved || !(S.kappa <= kKappaMax)) { nIll++; continue; }
+    double ek = epsK(S.kappa, eta);
+    nChecked++;
+    for (int i = 0; i < nl; i++)
+    {
+      LD est = 0, scE = 0, c00 = 0, lb = 0, lbAbs = 0, vz = 0, l1 = 0;
+      for (int j = 0; j < nv; j++)
+      {
+        LD m = (LD)mc.lc[(size_t)(i * nv + j)];
+        est += m * S.estim[(size_t)j];
+        scE += fabsl(m) * S.scaleE[(size_t)j];
+        for (int q = 0; q < nv; q++) c00 += m * S.C00(j, q) * (LD)mc.lc[(size_t)(i * nv + q)];
+      }
+      for (int r = 0; r < S.N; r++)
+      {
+        LD sl = 0, bl = 0;
+        for (int j = 0; j < nv; j++)
+        {
+          LD m = (LD)mc.lc[(size_t)(i * nv + j)];
+          sl += m * S.sol(r, j);
+          bl += m * S.B(r, j);
+        }
+        lb += sl * bl;
+        lbAbs += fabsl(sl * bl);
+        vz += (r < S.nu ? 1 : -1) * sl * bl;
+        l1 += fabsl(sl);
+      }
+      LD mabs = 0;
+      for (int j = 0; j < nv; j++) mabs += fabsl((LD)mc.lc[(size_t)(i * nv + j)]);
+      LD tolE = (LD)ek * scE + mabs * floorE(S, eta);
+      LD tolV = (LD)ek * (fabsl(c00) + lbAbs) + (LD)10 * (LD)epsIn(eta) * (LD)S.covScale * mabs * mabs * ((LD)1 + 2 * l1);
+      double e = E[(size_t)i][k], s = Sd[(size_t)i][k];
+      if (isNA(e) || std::isnan(e) || fabsl((LD)e - est) > tolE)
+      {
+        ctx.fail(c.key("matlc-estim"), fmt("target %d combination %d: estim %.15g, oracle %.15Lg (tol %.3Lg, kappa %.3g)", k, i, e, est, tolE, S.kappa));
+        return;
+      }
+      LD vo = std::max((LD)0, c00 - lb);
+      if (isNA(s) || std::isnan(s) || s < 0 || fabsl((LD)s * s - vo) > tolV)
+      {
+        ctx.fail(c.key("matlc-stdev"), fmt("target %d combination %d: stdev^2 %.15g, oracle variance %.15Lg (tol %.3Lg, kappa %.3g, sigma00 %.12Lg)", k, i, s * s, c00 - lb, tolV, S.kappa, c00));
+        return;
+      }
+      if (wantVarz)
+      {
+        double z = Vz[(size_t)i][k];
+        if (isNA(z) || std::isnan(z) || fabsl((LD)z - vz) > tolV)
+        {
+          ctx.fail(c.key("matlc-varz"), fmt("target %d combination %d: varz %.15g, oracle %.15Lg (tol %.3Lg, kappa %.3g)", k, i, z, vz, tolV, S.kappa));
+          return;
+        }
+      }
+    }
+  }
+  if (nChecked == 0 && nIll > 0) ctx.inconclusive("ill-conditioned");
+  ctx.nontrivial(nChecked > 0 && maxNb >= 2);
+}
+
 // ------------------------------------------------------------------ sub-properties -------
 static GenOpt optFamily(int fam)
 {
@@ -526,4 +656,5 @@ VERIF_SUB(intrinsic, KCase, genIntrinsic, runStd);
 VERIF_SUB(krigtest_fields, KCase, genFields, runFields);
 VERIF_SUB(extdrift_undefined, KCase, genEDna, runStd);
 VERIF_SUB(xvalid, XCase, genXvalid, runXvalid);
+VERIF_SUB(matlc, MCase, genMatLC, runMatLC);
 VERIF_MAIN()
